@@ -58,7 +58,10 @@ MultiplierClauses(e) ==
      <<"drift:predAsModel", \A i \in DOMAIN resn : e.obs.pred[i] + 1 = PredOf(resn, i, B)>> >>
 
 (* zm.zoomify: zoomify_cooler / `cooler zoomify` on a small base *)
-LevelOf(levels, r) == CHOOSE x \in Range(levels) : x.res = r
+\* total: a level that is not in the file reads as a record that equals nothing the model expects (verdicts are total)
+MissingLevel == [res |-> -1, table |-> << <<-1, -1, -1>> >>, px |-> << <<-1, -1, -1>> >>, tag |-> <<-1>>, meta_base |-> -2,
+                 raw |-> [binsize |-> -1]]
+LevelOf(levels, r) == IF \E x \in Range(levels) : x.res = r THEN CHOOSE x \in Range(levels) : x.res = r ELSE MissingLevel
 ZoomClauses(e) ==
   LET t == e.case.table
       b0 == e.case.binsize
